@@ -170,6 +170,12 @@ func read_external(rdr *tokenReader, placeholderValues *HashMap, ns EnvType) (Ma
 	}
 	args := lst.(List).Val
 	// cursor := lst.(List).Cursor
+	if len(args) == 0 || !Q[Symbol](args[0]) {
+		return nil, lisperror.NewLispError(errors.New("«» requires a type name"), lst)
+	}
+	if ns == nil {
+		return nil, lisperror.NewLispError(errors.New("«» requires an environment"), lst)
+	}
 	symbol := Symbol{Val: "new-" + args[0].(Symbol).Val}
 	constructor, err := ns.Get(symbol)
 	if err != nil {
@@ -216,6 +222,10 @@ func read_placeholder(rdr *tokenReader, placeholderValues *HashMap, ns EnvType) 
 	tokenStruct := rdr.next()
 	if tokenStruct == nil {
 		return nil, lisperror.NewLispError(errors.New("read_placeholder underflow"), &tokenStruct)
+	}
+	if placeholderValues == nil {
+		// no placeholder table: $name is an ordinary symbol
+		return Symbol{Val: tokenStruct.Value, Cursor: tokenStruct.GetPosition()}, nil
 	}
 	return placeholderValues.Val[tokenStruct.Value], nil
 }
